@@ -12,7 +12,7 @@ EXEMPT = {
 
 
 def run(ctx):
-    fbs = ctx.facts(['K17', 'K20'], kinds=('probe',), only=r'p_when\.cpp$')
+    fbs = ctx.facts(['K17', 'K20'], kinds=('probe',), only=r'p_when\.cpp$', tests=r'/test/')
     ra = ctx.rule('R-ACCESSOR', 'every Result accessor call sees exactly the matching state on every CFG path',
                   minimum=20)
     rs = ctx.rule('R-SETONCE', 'the output promise is set at most once per path, only after winning an RMW election '
